@@ -54,6 +54,7 @@ type Run struct {
 	World string   // eachfeature: direct | basic | overlay | compact
 	Kinds []string // pbf: kind of every blob (h n w r p m); eachfeature: kind of every feature (p a A r)
 	Index []byte   // eachfeature, compact world: the index built by the parent process (compact.BuildInMemory)
+	Cancel int     // memread: 1 + index of the callback inside which the harness cancels the caller's context (0 = never)
 }
 
 var protos = []string{"eachitem", "memread", "pbf", "eachfeature", "modtags"}
@@ -78,6 +79,9 @@ func (r *Run) opText() string {
 	extra := ""
 	if r.Proto == "pbf" {
 		extra = " kinds=" + hx.List(r.Kinds)
+	}
+	if r.Proto == "memread" && r.Cancel > 0 {
+		extra = fmt.Sprintf(" cancel=%d", r.Cancel-1)
 	}
 	if r.Proto == "eachfeature" {
 		ph := make([]string, len(r.Sizes))
@@ -128,6 +132,12 @@ func mix(a, b, c uint64) uint64 {
 
 // call is what every wrapped callback does: record, perturb the schedule, answer.
 func (rec *recorder) call(k, j, goroutine, tagged int) error {
+	_, err := rec.callIdx(k, j, goroutine, tagged)
+	return err
+}
+
+// callIdx also returns the index of the call in the event log.
+func (rec *recorder) callIdx(k, j, goroutine, tagged int) (int, error) {
 	key := [2]int{k, j}
 	rec.mu.Lock()
 	fail := rec.fails[key]
@@ -141,6 +151,7 @@ func (rec *recorder) call(k, j, goroutine, tagged int) error {
 	if fail {
 		mark = "!"
 	}
+	idx := len(rec.events)
 	rec.events = append(rec.events, fmt.Sprintf("%d.%d@%d%s/%d", k, j, goroutine, mark, tagged))
 	rec.mu.Unlock()
 	switch mix(rec.run.Y, uint64(k), uint64(j)) % 8 {
@@ -156,9 +167,9 @@ func (rec *recorder) call(k, j, goroutine, tagged int) error {
 		time.Sleep(200 * time.Microsecond)
 	}
 	if fail {
-		return errCallback
+		return idx, errCallback
 	}
-	return nil
+	return idx, nil
 }
 
 func (rec *recorder) answer(err error) string {
@@ -248,10 +259,16 @@ func runMemRead(r *Run, rec *recorder) error {
 	for i := range fs {
 		fs[i] = pointFeature(i)
 	}
+	ctx, cancelCaller := context.WithCancel(context.Background())
+	defer cancelCaller()
 	emit := func(f ingest.Feature, goroutine int) error {
-		return rec.call(int(f.FeatureID().Value), 0, goroutine, 1)
+		idx, err := rec.callIdx(int(f.FeatureID().Value), 0, goroutine, 1)
+		if idx+1 == r.Cancel {
+			cancelCaller() // the environment: the caller's context is cancelled while this callback runs
+		}
+		return err
 	}
-	return ingest.MemoryFeatureSource(fs).Read(ingest.ReadOptions{Goroutines: r.G}, emit, context.Background())
+	return ingest.MemoryFeatureSource(fs).Read(ingest.ReadOptions{Goroutines: r.G}, emit, ctx)
 }
 
 // pbf: item 0 is the header blob NewWriter emits (sizes[0] = 0, kind h); data blob k holds sizes[k] >= 1 elements with
@@ -869,6 +886,9 @@ func genRun(seed uint64, no int) Run {
 		run.G = 1 + r.Intn(8)
 	}
 	shape(r, &run)
+	if run.Proto == "memread" && r.Chance(1, 3) {
+		run.Cancel = 1 + r.Intn(len(run.Sizes))
+	}
 	run.Multi = r.Bool()
 	run.Once = r.Chance(1, 3)
 	ps := positions(run.Sizes)
@@ -909,6 +929,10 @@ var corpus = []Run{
 	// the errgroup protocols with everything failing
 	{Proto: "eachfeature", G: 1, MP: 4, Sizes: []int{1, 1, 1, 1}, Fail: [][2]int{{0, 0}, {1, 0}, {2, 0}, {3, 0}}},
 	{Proto: "modtags", G: 1, MP: 4, Sizes: []int{1, 1, 1, 1}, Fail: [][2]int{{0, 0}, {1, 0}, {2, 0}, {3, 0}}},
+	// Read with the caller's context cancelled inside the 2nd callback (the old producer ignored the context and hung
+	// once the feeders had left), with and without a failing callback
+	{Proto: "memread", G: 1, MP: 4, Sizes: []int{1, 1, 1, 1, 1, 1, 1, 1}, Cancel: 2},
+	{Proto: "memread", G: 2, MP: 4, Sizes: []int{1, 1, 1, 1, 1, 1, 1, 1, 1, 1, 1, 1}, Cancel: 1, Fail: [][2]int{{5, 0}}},
 	// ReadPBF: a callback error on a RELATION (first / middle / last of its group, last blob; also in a mixed block)
 	// must be reported like one on a node or a way (seeded change C28-1 dropped it)
 	{Proto: "pbf", G: 1, MP: 4, Sizes: []int{0, 2, 3}, Kinds: []string{"h", "n", "r"}, Fail: [][2]int{{2, 0}}},
@@ -926,6 +950,12 @@ var corpus = []Run{
 
 func note(c *hx.Ctx, r *Run, ans string) {
 	c.Note("proto:" + r.Proto)
+	if r.Cancel > 0 {
+		c.Note("memread:caller-cancels")
+		if strings.Count(ans, "@") > r.Cancel-1 {
+			c.Note("memread:caller-cancelled")
+		}
+	}
 	if r.Proto == "eachfeature" {
 		c.Note("world:" + r.World)
 	}
